@@ -78,6 +78,19 @@ func main() {
 		fatal(2, "usage: vcheck <property-id> [--tier quick|thorough] [--replay file]")
 	}
 	id := os.Args[1]
+	if id == "--build" { // vcheck --build <dir> [flavour]: leave overlay + harness binary in <dir> (manual use)
+		fl := "plain"
+		if len(os.Args) > 3 {
+			fl = os.Args[3]
+		}
+		os.MkdirAll(os.Args[2], 0o755)
+		bin, info, err := buildHarness(os.Args[2], fl)
+		if err != nil {
+			fatal(2, "%v", err)
+		}
+		fmt.Println(bin, info)
+		return
+	}
 	if id == "--warm" {
 		for _, fl := range []string{"plain", "shim"} {
 			scratch, err := os.MkdirTemp("/var/tmp", "vcheck-warm-")
